@@ -388,6 +388,8 @@ class Enumerator:
                                   ast.GeneratorExp, ast.Lambda)):
                     # the value of such an expression is never None
                     return False
+                if key_of(a) in self.__dict__.get('_notnone', ()):
+                    return False
                 d = self.defs.get(a.id) if isinstance(a, ast.Name) else a
                 if isinstance(d, ast.Call) and isinstance(
                         d.func, ast.Name) and d.func.id in self.NEVER_NONE \
@@ -1073,11 +1075,21 @@ class Enumerator:
             results = list(self.block(callee.node.body, s0, []))
         finally:
             self._stack.pop()
+        # a helper that answers None on some paths uses it as its "nothing"
+        # sentinel: its other answers are taken to be something
+        sentinel = any(st_[0] == 'return' and (st_[1] is None or (
+            isinstance(st_[1], ast.Constant) and st_[1].value is None))
+            for _s, st_ in results) or any(
+                st_[0] in ('next', 'break', 'continue')
+                for _s, st_ in results)
         for s, status in results:
             s.env = dict(saved_env)
             if status[0] == 'return':
                 rv = status[1] if status[1] is not None else ast.Constant(
                     value=None)
+                if sentinel and not isinstance(rv, ast.Constant):
+                    self.__dict__.setdefault('_notnone', set()).add(
+                        key_of(rv))
                 yield s, rv, None
             elif status[0] == 'raise':
                 yield s, None, status
